@@ -15,6 +15,7 @@ import io
 import json
 import os
 import sys
+import threading
 
 EXIT_CRASH = 77
 
@@ -44,7 +45,9 @@ class FsMon:
         rel = os.path.relpath(os.path.realpath(os.fspath(path)), self.root)
         if kind == "rename":
             extra = os.path.relpath(os.path.realpath(os.fspath(extra)), self.root) if self.inside(extra) else str(extra)
-        rec = [self.n, kind, rel, extra, os.getpid()]
+        # (actor = process/thread: an event is recorded BEFORE it is performed, so when the process is killed at another
+        #  thread's event, the last recorded event of every other thread may or may not have been performed)
+        rec = [self.n, kind, rel, extra, f"{os.getpid()}/{threading.get_ident()}"]
         hit = self.crash_at == self.n and ((os.getpid() == self.pid) != self.crash_children)
         if hit:
             rec.append("CRASH" if self.tear is None else f"TEAR{self.tear}")
@@ -150,10 +153,30 @@ def complete_files(events):
     (marked CRASH/TEAR).  A path is complete if its data event was performed (direct write) or it was
     the target of a performed rename from a complete file; unlink / rename-away / re-create clear it."""
     done = set()
-    for ev in events:
+    crash = next((e for e in events if len(e) > 5), None)
+    uncertain = set()
+    if crash is not None and crash[1] != "end":
+        # a real kill: the last recorded event of every OTHER actor was possibly not performed - only its invalidating
+        # effects are applied (a path counts as complete only if it certainly is)
+        last_of = {}
+        for idx, e in enumerate(events):
+            if len(e) > 5:
+                break
+            last_of[e[4]] = idx
+        uncertain = {idx for actor, idx in last_of.items() if actor != crash[4]}
+    for idx, ev in enumerate(events):
         n, kind, rel, extra = ev[:4]
         if len(ev) > 5:
             break
+        if idx in uncertain:
+            if kind == "rename":
+                done.discard(rel)
+                done.discard(extra)
+            elif kind == "rmtree":
+                done = {d for d in done if not (d == rel or d.startswith(rel + os.sep) or rel == ".")}
+            else:
+                done.discard(rel)
+            continue
         if kind == "create":
             done.discard(rel)
         elif kind == "data":
